@@ -21,6 +21,10 @@ C11.prime   in server_request every use of the signing context after the MAC
 C11.time48  Time48::into_octets puts bits 47-8i..40-8i of the value into octet
             i (per-octet stores or to_be_bytes copies); from_slice reads the
             same layout.
+C11.panic   no unwrap/expect in the TSIG module on something read from a
+            message (TSIG extraction, parsing): a request that was *rejected*
+            for a missing, misplaced or malformed TSIG record must still get
+            its error response built.
 C11.err     verification errors map to the RCODEs of RFC 8945 5.2/5.3 with
             explicit arms for every variant the callee can return.
 """
@@ -61,6 +65,7 @@ def run(ctx):
     rule_fudge(ctx, F)
     rule_canon(ctx, F)
     rule_chain(ctx, F)
+    rule_panic(ctx, F)
     rule_alg(ctx, F)
     rule_prime(ctx, F)
     rule_time48(ctx, F)
@@ -488,6 +493,40 @@ def _lin3(t):
     for k, v in lb.items():
         out[k] = out.get(k, 0) + (v if op == "+" else -v)
     return out
+
+
+PANIC_ERR = re.compile(r"(tsig::TsigError|tsig::ValidationError|base::wire::ParseError|base::wire::FormError|octseq::(parse::)?ShortInput|ShortMessage)")
+PANIC_AUDIT = {
+}
+
+
+def rule_panic(ctx, F):
+    R = "C11.panic"
+    n = 0
+    scope = 0
+    seen = {}
+    for p, b in sorted(F.bodies.items()):
+        if not b.file.startswith("src/tsig/") or "::test" in p:
+            continue
+        scope += 1
+        for bi, t in b.calls():
+            fn = t["fn"] or ""
+            if not re.search(r"core::result::Result::<.*>::(unwrap|expect)$", fn) or len(t["targs"]) < 2:
+                continue
+            if not PANIC_ERR.search(t["targs"][1]):
+                continue
+            n += 1
+            src = next((s for s in walk(deep_strip(b.term_of_operand(t["args"][0]))) if s[0] == "call"), None)
+            sname = src[1].split("::")[-1] if src else "?"
+            k = (p, sname)
+            seen[k] = seen.get(k, 0) + 1
+            ctx.ob(R, b, "unwrap of %s#%d" % (sname, seen[k]), (p.split("::")[-1], sname) in PANIC_AUDIT,
+                   "%s unwraps the result of %s (error type %s), which is computed from the peer's message: a message that "
+                   "makes it fail panics the caller instead of producing the error response"
+                   % (p.split("::")[-1], sname, t["targs"][1].split("::")[-1]), b.where(bi),
+                   detail=PANIC_AUDIT.get((p.split("::")[-1], sname)))
+    ctx.ob(R, "tsig", "scanned", scope >= 40, "only %d bodies of the TSIG module found" % scope, nontrivial=False,
+           detail="%d bodies of src/tsig scanned, %d unwrap/expect of message-derived results" % (scope, n))
 
 
 def rule_alg(ctx, F):
